@@ -95,7 +95,7 @@ CHECKS = {
     'C13': dict(
         technique='single-fault enumeration over Hypothesis-generated valid (model, configuration) pairs with a result-completeness / error-class oracle and a watchdog',
         level='fault_enumeration',
-        text='For every generated valid pair the build must return the complete file set; then each of 27 fault kinds '
+        text='For every generated valid pair the build must return the complete file set; then each of 31 fault kinds '
              '(encapsulee, port type, formal type, selection, multi-client) is injected one at a time and the build must '
              'fail with an exception class defined in the dznpy package; fault enumeration over sampled bases.',
         note=TRUST_PY + '; SIGALRM watchdog of 30 s per build', design='C13'),
